@@ -183,6 +183,19 @@ class Exec:
         self.peer_blocked = False
 
 
+_ZOMBIES = []
+
+
+def reap_zombies(keep_latest=0):
+    """Reap killed children that were deliberately left unreaped."""
+    while len(_ZOMBIES) > keep_latest:
+        pid = _ZOMBIES.pop(0)
+        try:
+            os.waitpid(pid, 0)
+        except ChildProcessError:
+            pass
+
+
 SIGNALS = {"KILL": signal.SIGKILL, "TERM": signal.SIGTERM, "INT": signal.SIGINT, "HUP": signal.SIGHUP}
 
 
@@ -216,6 +229,7 @@ def _make_plan(knobs, fault, record=False):
 def execute(db, argv, knobs, fault, directory, record=False, count_sys=False):
     """Run one command against `db`.  fault is None or a fault plan dict."""
     ex = Exec()
+    reap_zombies(keep_latest=1 if not (fault and fault.get("leave_zombie")) else 0)
     argv = _subst(argv, os.path.relpath(db) if knobs.get("_relative_paths") else db)
     layer = fault["layer"] if fault else None
     needs_fork = bool(fault) and (
@@ -304,7 +318,16 @@ def execute(db, argv, knobs, fault, directory, record=False, count_sys=False):
                     break
                 chunks.append(b)
             os.close(r)
-            _, status = os.waitpid(pid, 0)
+            if fault.get("leave_zombie"):
+                # the killed process is not reaped yet (its parent -- a shell script, a job
+                # scheduler -- has not waited for it): its pid still exists while the next
+                # command runs.  Learn how it ended without reaping it.
+                info = os.waitid(os.P_PID, pid, os.WEXITED | os.WNOWAIT)
+                status = (info.si_status if info.si_code in (os.CLD_KILLED, os.CLD_DUMPED)
+                          else info.si_status << 8)
+                _ZOMBIES.append(pid)
+            else:
+                _, status = os.waitpid(pid, 0)
             if os.WIFSIGNALED(status):
                 ex.killed = True
                 ex.fired = True
@@ -603,7 +626,8 @@ class Trial:
             kind = rng.choice(LAYER_KINDS["A"])
             if kind == "kill":
                 return {"layer": "A", "kind": "kill", "at": at, "of": n,
-                        "signal": rng.choice(["KILL", "KILL", "KILL", "TERM", "INT", "HUP"])}
+                        "signal": rng.choice(["KILL", "KILL", "KILL", "TERM", "INT", "HUP"]),
+                        "leave_zombie": rng.random() < 0.3}
             return {"layer": "A", "kind": "raise", "exc": kind.split(":")[1], "at": at, "of": n}
         if layer == "B":
             n = twin_ex.callbacks
@@ -619,6 +643,7 @@ class Trial:
             plan = {"layer": "C", "kind": rng.choice(LAYER_KINDS["C"]), "at": at, "of": n}
             if plan["kind"].startswith("kill"):
                 plan["signal"] = rng.choice(["KILL", "KILL", "KILL", "TERM", "INT", "HUP"])
+                plan["leave_zombie"] = rng.random() < 0.3
             return plan
         plan = {"layer": "L", "lock": rng.choice(LAYER_KINDS["L"])}
         n = twin_ex.calls
@@ -1203,6 +1228,7 @@ def run_trial(seed, directory, other_process_seed=None, **kw):
         return trial, v
     finally:
         os.chdir(home)
+        reap_zombies()
     return trial, None
 
 
@@ -1296,7 +1322,8 @@ def sweep(seed, directory, step, prefix_steps, spec=None, knobs=None, layers=("A
     if "A" in layers:
         for k in range(twin_ex.calls):
             plans.append({"layer": "A", "kind": "raise", "exc": "OperationalError", "at": k, "of": twin_ex.calls})
-            plans.append({"layer": "A", "kind": "kill", "at": k, "of": twin_ex.calls, "signal": "KILL"})
+            plans.append({"layer": "A", "kind": "kill", "at": k, "of": twin_ex.calls, "signal": "KILL",
+                          "leave_zombie": k % 5 == 2})
             plans.append({"layer": "A", "kind": "kill", "at": k, "of": twin_ex.calls,
                           "signal": ("TERM", "INT", "HUP")[k % 3]})
     if "C" in layers and sysfault.available():
@@ -1412,6 +1439,7 @@ def sweep_job(job):
         return _sweep_job(job)
     finally:
         os.chdir(home)
+        reap_zombies()
 
 
 def _sweep_job(job):
